@@ -17,6 +17,7 @@ import Golib.Proof.C18SolvOrd
 import Golib.Proof.C18Permute
 import Golib.Proof.C18Compose
 import Golib.Proof.C18Driver
+import Golib.Proof.C18GraphDriver
 
 namespace Golib.C18
 
@@ -268,6 +269,67 @@ theorem c18_driver_adjacency (n : Nat) (edges : List (Nat × Nat)) (v u : Nat) (
 
 example : ((adjLists 3 [(0, 1), (1, 0), (1, 2), (2, 1)]).getD 1 []).contains 2 = true ∧
     ((adjLists 3 [(0, 1), (1, 0), (1, 2), (2, 1)]).getD 0 []).contains 2 = false := by decide
+
+/-! ### The construction API (order of public calls)
+
+`gBuild ops` is the zero-value `Graph` after the calls `ops` (`AddNode`, `AddEdge`,
+`AddUndirectedEdge` as coded: `Nodes map[T]map[T]struct{}` as an association list). -/
+
+/-- After ANY sequence of construction calls, `u ∈ g.Nodes[v]` iff some call contributed the
+arc `(v, u)` (`AddEdge(v, u)`, `AddUndirectedEdge(v, u)` or `AddUndirectedEdge(u, v)`), and `v`
+is a key of `g.Nodes` iff some call created it — so the graph is a function of the SET of
+calls: their order, their multiplicity, and whether an arc was first added one-way and later
+completed by `AddUndirectedEdge` do not matter. -/
+theorem c18_graph_api (ops : List GOp) (v u : Nat) :
+    (gNb (gBuild ops) v u = true ↔ ∃ op ∈ ops, op.arc v u) ∧
+    (gIsNode (gBuild ops) v = true ↔ ∃ op ∈ ops, op.node v) :=
+  ⟨gNb_build ops v u, gIsNode_build ops v⟩
+
+/-- Two call sequences with the same set of calls build the same graph. -/
+theorem c18_graph_api_order_irrelevant (ops ops' : List GOp) (h : ∀ op, op ∈ ops ↔ op ∈ ops')
+    (v u : Nat) :
+    gNb (gBuild ops) v u = gNb (gBuild ops') v u ∧ gIsNode (gBuild ops) v = gIsNode (gBuild ops') v := by
+  constructor
+  · rw [Bool.eq_iff_iff, gNb_build, gNb_build]
+    exact ⟨fun ⟨o, ho, ha⟩ => ⟨o, (h o).mp ho, ha⟩, fun ⟨o, ho, ha⟩ => ⟨o, (h o).mpr ho, ha⟩⟩
+  · rw [Bool.eq_iff_iff, gIsNode_build, gIsNode_build]
+    exact ⟨fun ⟨o, ho, ha⟩ => ⟨o, (h o).mp ho, ha⟩, fun ⟨o, ho, ha⟩ => ⟨o, (h o).mpr ho, ha⟩⟩
+
+/-- The graph is undirected as soon as every one-way `AddEdge(a, b)` is matched by a call that
+contributes the reverse arc (before or after it) — in particular a graph built with
+`AddUndirectedEdge` only, or `AddEdge(a, b)` followed by `AddUndirectedEdge(a, b)`. -/
+theorem c18_graph_api_undirected (ops : List GOp)
+    (h : ∀ a b, GOp.addEdge a b ∈ ops → ∃ op ∈ ops, op.arc b a) (v u : Nat) :
+    gNb (gBuild ops) v u = gNb (gBuild ops) u v := by
+  have key : ∀ v u, (∃ op ∈ ops, op.arc v u) → ∃ op ∈ ops, op.arc u v := by
+    rintro v u ⟨op, ho, ha⟩
+    cases op with
+    | addNode x => exact absurd ha (by simp [GOp.arc])
+    | addEdge a b =>
+      obtain ⟨rfl, rfl⟩ := ha
+      exact h a b ho
+    | addUndirected a b =>
+      refine ⟨_, ho, ?_⟩
+      rcases ha with ⟨rfl, rfl⟩ | ⟨rfl, rfl⟩
+      · exact Or.inr ⟨rfl, rfl⟩
+      · exact Or.inl ⟨rfl, rfl⟩
+  rw [Bool.eq_iff_iff, gNb_build, gNb_build]
+  exact ⟨key v u, key u v⟩
+
+/-- The executable driver: the arc list it derives from the edge tokens (`a-b` =
+`AddUndirectedEdge(a, b)`, `a>b` = `AddEdge(a, b)`) answers adjacency exactly like the graph
+built by those calls — whatever order and mixture the Go harness uses to issue them. -/
+theorem c18_driver_graph (n : Nat) (toks : List String) (es : List (Nat × Nat))
+    (h : parseEdges n toks = some es) :
+    ∃ ops : List GOp, toks.mapM (parseEdgeOp n) = some ops ∧
+      ∀ v u, es.contains (v, u) = gNb (gBuild ops) v u := by
+  obtain ⟨ops, h1, rfl⟩ := parseEdges_eq n toks es h
+  exact ⟨ops, h1, contains_flatMap_arcsOf ops⟩
+
+-- AddEdge(0,1) then AddUndirectedEdge(0,1) (the mixed order), with and without AddNode calls
+example : gNb (gBuild [.addEdge 0 1, .addUndirected 0 1]) 1 0 = true ∧
+    gNb (gBuild [.addNode 1, .addUndirected 1 0, .addNode 0, .addEdge 0 1]) 0 1 = true ∧
+    gNb (gBuild [.addEdge 0 1]) 1 0 = false ∧ gIsNode (gBuild [.addEdge 0 1]) 1 = false := by decide
 
 /-- Non-vacuity: triangle 0-1-2 with pendant 3 at 2, two vertex orders. -/
 example : maximalCliques (fun a b : Nat => (a, b) ∈ [(0, 1), (1, 0), (1, 2), (2, 1), (0, 2), (2, 0), (2, 3), (3, 2)])
